@@ -727,7 +727,7 @@ pub fn run(c: &mut Ctx) {
     c.rule = "documents = well-formed generator output (page tree, Contents direct/array/chained, Resources direct/by reference/inherited, \
 fonts with every Encoding branch, image XObjects, Annots, outlines with Dest/A/named destinations, name trees, Encrypt/CF) with 0-12 typed-chaos \
 mutations (a key the queries read re-bound to a value of a random kind or to a reference, possibly forming cycles); every query runs on the real \
-Document in the isolated worker on 3-5 target ids; non-trivial = every case (distinct by request text); every walker runs on every document (cyclic Next / First / Kids included: seen-sets); stream `refchains`: for each of 34 keys a query looks up x 24 chain shapes (acyclic 1..5 and 126..129 hops, dangling, self loop, ring 2..4, rho-shape tail 1..5 + ring 1..4, chains ending in an array / name / array of references) the value of the key — or an item of its array — is put behind a chain of bare reference objects; a query that does not return in the isolated worker is an oracle failure hang:<query> / abort:<query> with the document as replay; stream `systematic`: every key x every value kind (null, bool, int, real, name, string, array, dictionary, stream, reference) x {trailer, a dictionary that has the key, any dictionary} once per run".into();
+Document in the isolated worker on 3-5 target ids; non-trivial = every case (distinct by request text); every walker runs on every document (cyclic Next / First / Kids included: seen-sets); stream `refchains`: for each of 34 keys a query looks up x 24 chain shapes (acyclic 1..5 and 126..129 hops, dangling, self loop, ring 2..4, rho-shape tail 1..5 + ring 1..4, chains ending in an array / name / array of references) the value of the key — or an item of its array — is put behind a chain of bare reference objects; a query that does not return in the isolated worker is an oracle failure hang:<query> / abort:<query> with the document as replay; stream `systematic`: every key x every value kind (null, bool, int, real, name, string, array, dictionary, stream, reference) x {trailer, a dictionary that has the key, any dictionary} once per run; stream `count_outline`: /Count specials (0, -1, 2^31, 2^40, 2^60, 2^62, i64::MAX, i64::MIN, the 12-byte capacity boundary, real, name, null, string, array) on the root and / or a non-root /Pages node (directly or behind a reference) of documents with a readable table of contents and a name tree, every query run".into();
     let _ = guard(|| ());
     // ---------------- well-formed documents
     let mut batch = vec![]; let mut docs = vec![];
@@ -786,6 +786,7 @@ Document in the isolated worker on 3-5 target ids; non-trivial = every case (dis
     run_batch(c, batch, &docs);
     refchain_stream(c);
     systematic_stream(c);
+    count_outline_stream(c);
     known_streams(c);
 }
 
@@ -907,6 +908,61 @@ fn systematic_stream(c: &mut Ctx) {
         let req = request("all", &targets, &doc);
         c.nontrivial(&req);
         batch.push(Pending { case_id: c.cur, stream: "systematic".into(), req, doc_targets: targets, hazard: hz }); docs.push(doc);
+    }
+    run_batch(c, batch, &docs);
+}
+
+
+/// attacker-chosen /Count on root and non-root /Pages nodes of documents that have a well-formed outline and named
+/// destinations, so that get_toc / get_outlines / get_object_page / extract_text get as far as the page numbering
+fn count_outline_stream(c: &mut Ctx) {
+    let specials: Vec<Object> = vec![Object::Integer(0), Object::Integer(-1), Object::Integer(1 << 31), Object::Integer(1 << 40), Object::Integer(1 << 60),
+        Object::Integer(i64::MAX), Object::Integer(i64::MIN), Object::Integer(768614336404564650), Object::Real(2.5), name("Pages"), Object::Null, lit(b"7"),
+        Object::Array(vec![Object::Integer(3)]), Object::Integer(1 << 62)];
+    let mut batch = vec![]; let mut docs = vec![];
+    let combos = specials.len() as u64 * 4;
+    for i in 0..c.n(combos, combos * 5) {
+        let Some(mut r) = c.case("count_outline", i) else { continue };
+        let special = specials[(i as usize) % specials.len()].clone();
+        let place = (i / specials.len() as u64) % 4;      // 0 root, 1 non-root, 2 both, 3 non-root behind a reference object
+        // a well-formed document with an outline and a name tree
+        let mut found = None;
+        for _ in 0..60 {
+            let (doc, leaves) = gen_valid(&mut r);
+            let cat = doc.catalog().ok().cloned();
+            // (the unmodified document is well-formed: get_toc is called in-process, under `guard`, to select documents whose
+            //  table of contents is readable — the page numbering is reached)
+            if let Some(cat) = cat { if cat.has(b"Outlines") && (cat.has(b"Dests") || cat.has(b"Names")) && matches!(guard(|| doc.get_toc().map(|t| !t.toc.is_empty()).unwrap_or(false)), Ok(true)) { found = Some((doc, leaves)); break; } }
+        }
+        let Some((mut doc, leaves)) = found else { c.count("count_outline.no_outline_doc"); continue };
+        let root_id = doc.catalog().ok().and_then(|cat| cat.get(b"Pages").ok().and_then(|o| o.as_reference().ok()));
+        let Some(root_id) = root_id else { continue };
+        let pages_nodes: Vec<ObjectId> = doc.objects.iter().filter(|(id, o)| **id != root_id && matches!(o, Object::Dictionary(d) if d.has_type(b"Pages"))).map(|(id, _)| *id).collect();
+        // make sure there is a non-root Pages kid right after the first kid of the root
+        let non_root = if let Some(id) = pages_nodes.first() { *id } else {
+            let id = (doc.objects.keys().map(|k| k.0).max().unwrap_or(0) + 1, 0);
+            doc.objects.insert(id, Object::Dictionary(dict(vec![("Type", name("Pages")), ("Parent", rf(root_id)), ("Kids", Object::Array(vec![])), ("Count", Object::Integer(0))])));
+            // Kids of the root: direct array or an array object
+            let kids_ref = match doc.objects.get(&root_id) { Some(Object::Dictionary(d)) => match d.get(b"Kids") { Ok(Object::Reference(k)) => Some(*k), _ => None }, _ => None };
+            let push = |a: &mut Vec<Object>| { let at = 1.min(a.len()); a.insert(at, rf(id)); };
+            match kids_ref {
+                Some(k) => { if let Some(Object::Array(a)) = doc.objects.get_mut(&k) { push(a); } }
+                None => { if let Some(Object::Dictionary(d)) = doc.objects.get_mut(&root_id) { if let Ok(Object::Array(a)) = d.get_mut(b"Kids") { push(a); } } }
+            }
+            id
+        };
+        let value = if place == 3 { let id = (doc.objects.keys().map(|k| k.0).max().unwrap_or(0) + 1, 0); doc.objects.insert(id, special.clone()); rf(id) } else { special.clone() };
+        let set_count = |doc: &mut Document, id: ObjectId, v: Object| { if let Some(Object::Dictionary(d)) = doc.objects.get_mut(&id) { d.set("Count", v); } };
+        if place == 0 || place == 2 { set_count(&mut doc, root_id, special.clone()); }
+        if place >= 1 { set_count(&mut doc, non_root, value); }
+        if i >= combos && r.chance(1, 2) { let n = 1 + r.usize(2); chaos(&mut r, &mut doc, n, c); }
+        let mut targets = pick_targets(&mut r, &doc, &leaves);
+        targets.insert(0, non_root); targets.truncate(5); targets.dedup();
+        let hz = analyse(&doc, &targets);
+        let req = request("all", &targets, &doc);
+        c.nontrivial(&req); c.count(&format!("count_outline.place{}", place));
+        if i < 1 { c.sample(json!({"stream": "count_outline", "count": show_obj(&special), "place": place, "request": if req.len() < 600 { req.clone() } else { format!("{}…", &req[..600]) }})); }
+        batch.push(Pending { case_id: c.cur, stream: "count_outline".into(), req, doc_targets: targets, hazard: hz }); docs.push(doc);
     }
     run_batch(c, batch, &docs);
 }
